@@ -5,7 +5,7 @@
    those repairs, kept to show that each repaired clause was violated (the monitor recognises a
    regression of a repair by the legacy switch that reproduces the deviation).
    Schedules: [run coded s w] lets the goroutines of the work tree w act in the order s. *)
-From Verif Require Import Common Gen_LoadStages Load Load_proofs.
+From Verif Require Import Common Gen_LoadStages Gen_TplState Load Load_proofs.
 Open Scope N_scope.
 
 (* --- same tree whether template processing runs sequentially or concurrently --- *)
@@ -245,6 +245,40 @@ Theorem C15_source_stages :
   load_disabled_check_stage = model_disabled_check_stage.
 Proof. exact stages_as_modelled. Qed.
 Print Assumptions C15_source_stages.
+
+(* --- the result of a load is a function of template, variables and switches only: it does not
+   depend on what the process loaded before --- *)
+
+(* a process that loads the inputs of a history one after the other, each under any schedule of
+   its role goroutines, returns for every one of them what [load] returns for it alone *)
+Theorem C15_history_independent : forall ss h outs,
+  run_history ss h = Some outs -> outs = map (fun cr => load (fst cr) (snd cr)) h.
+Proof. exact history_independent. Qed.
+Print Assumptions C15_history_independent.
+
+(* two histories that end with the same template and variables: the last load gives the same
+   result, whatever was loaded before and under whatever schedules *)
+Theorem C15_history_prefix_irrelevant : forall ss1 ss2 h1 h2 c r outs1 outs2,
+  run_history ss1 (h1 ++ [(c, r)]) = Some outs1 ->
+  run_history ss2 (h2 ++ [(c, r)]) = Some outs2 ->
+  last outs1 Err = load c r /\ last outs2 Err = load c r.
+Proof. exact history_prefix_irrelevant. Qed.
+Print Assumptions C15_history_prefix_irrelevant.
+
+Theorem C15_history_terminates : forall h,
+  exists ss, run_history ss h = Some (map (fun cr => load (fst cr) (snd cr)) h).
+Proof. exact history_complete. Qed.
+Print Assumptions C15_history_terminates.
+
+(* tie to the source (regenerated from configuration/template on every run): the evaluation path
+   of the template package mentions no package-level variable (loggers apart) — no cache, memo
+   table or counter outlives an evaluation — and every program given to expr.Run comes from an
+   unconditional expr.Compile of the same evaluation, which is where a name that is not in the
+   environment of the role is rejected.  This is what the history-free model assumes. *)
+Theorem C15_source_stateless :
+  tpl_eval_globals = [] /\ tpl_run_sites_fresh = tpl_run_sites /\ 1 <= tpl_run_sites.
+Proof. split; [reflexivity|split; [reflexivity|]]. vm_compute. intro H; discriminate H. Qed.
+Print Assumptions C15_source_stateless.
 
 (* non-vacuity: a template with a nested iterator over two elements, a role disabled by a
    variable of the environment and a variable defined at the root; it loads to a tree with six
